@@ -52,6 +52,8 @@ class C08(Prop):
         "zombies -- measured by the real-child runs (tests), not proved",
         "Local.start/kill/stop/returncode/process_is_finished themselves (real-child runs only)",
         "wall-clock bounds: the model counts main-thread steps and expired 1 s joins, not seconds",
+        "an interrupt forwarded after the input stream's EOF (child stdin already closed): ValueError escapes "
+        "run() -- finding F-C08h, real runner only; generated scripts have no interrupt after an input EOF",
         "KeyboardInterrupt while the main thread is inside a join (it propagates out of _finish's finally block "
         "and leaves the remaining workers unjoined: finding F-C08g, witnessed on the real runner only) -- only "
         "interrupts inside wait() and right after the reaping poll are events of the model",
@@ -148,6 +150,25 @@ def interrupting_local():
         @property
         def process_is_finished(self):
             if not self.fired:
+                self.fired = True
+                raise KeyboardInterrupt
+            return Local.process_is_finished.fget(self)
+    return L
+
+
+def late_interrupting_local():
+    """Local hit by a KeyboardInterrupt in a poll 0.3 s after the first one"""
+    from invoke.runners import Local
+
+    class L(Local):
+        fired = False
+        t0 = None
+
+        @property
+        def process_is_finished(self):
+            if self.t0 is None:
+                self.t0 = time.time()
+            if not self.fired and time.time() - self.t0 > 0.3:
                 self.fired = True
                 raise KeyboardInterrupt
             return Local.process_is_finished.fget(self)
@@ -477,6 +498,26 @@ def real_findings(tier, budget):
     else:
         fails.append({"case": {"cmd": "echo hi; (sleep 3 &); exit 0", "SIGINT": "during join"},
                       "what": "unexpected behaviour: %r" % out[:300]})
+
+    # F-C08h: ^C in the wait loop after the input stream reached EOF (child stdin closed): the forwarded
+    # \x03 is written to the closed pipe, ValueError escapes run()
+    evals += 1
+    r = rc.run_real("sleep 1", runner_cls=late_interrupting_local(), hide=True, in_stream=io.StringIO(""), bound=10)
+    if r["outcome"] == "Result":
+        pass
+    elif r["outcome"] == "ValueError":
+        if r.get("pid"):
+            try:
+                os.waitpid(r["pid"], os.WNOHANG)
+            except OSError:
+                pass
+        fails.append({"case": {"cmd": "sleep 1", "in_stream": "StringIO('')", "interrupt": "0.3 s after start"},
+                      "finding": "F-C08h", "what": "run() raised ValueError (write to the closed child stdin) "
+                                                   "instead of forwarding the interrupt"})
+    else:
+        fails.append({"case": {"cmd": "sleep 1", "in_stream": "StringIO('')", "interrupt": True},
+                      "what": "outcome %s" % r["outcome"]})
+    r = None
 
     # F-C08f: pty=True while sys.stdout is a real file object that is not fd 1
     evals += 1
